@@ -398,6 +398,24 @@ var c13Targets = []struct {
 	{"A-b_c.GPKG", nil}, {"d.d/noext", []string{"d.d"}}, {".hidden", nil}, {"sub/./t.gpkg", []string{"sub"}},
 }
 
+// genC13Target: a random target over the safe alphabet: stems that end in the letters of their own extension
+// ("backup.gpkg", "bgt.pkg.gpkg"), several dots, no extension, a trailing dot, upper case.
+func genC13Target(r *rand.Rand) (string, []string) {
+	dirs := []struct {
+		d  string
+		mk []string
+	}{{"", nil}, {"sub/", []string{"sub"}}, {"sub/d.k/", []string{"sub/d.k"}}, {"{ABS}/abs/", []string{"abs"}}, {"./", nil}}
+	d := dirs[r.Intn(len(dirs))]
+	const alpha = "abgkp.-_09GP"
+	n := 1 + r.Intn(7)
+	stem := []byte{"abgkpx"[r.Intn(6)]}
+	for i := 1; i < n; i++ {
+		stem = append(stem, alpha[r.Intn(len(alpha))])
+	}
+	ext := []string{".gpkg", ".gpkg", ".gpkg", "", ".pkg", ".g", ".GPKG", ".", ".sqlite"}[r.Intn(9)]
+	return d.d + string(stem) + ext, d.mk
+}
+
 func genC13Case(r *rand.Rand, id int, class string) c13Case {
 	tmss := c13Tms()
 	t := tmss[r.Intn(len(tmss))]
@@ -412,6 +430,9 @@ func genC13Case(r *rand.Rand, id int, class string) c13Case {
 	k.IdsArg = string(b)
 	tg := c13Targets[r.Intn(len(c13Targets))]
 	k.Target, k.Mkdirs = tg.arg, tg.mkdirs
+	if r.Intn(2) == 0 {
+		k.Target, k.Mkdirs = genC13Target(r)
+	}
 	k.Keep, k.Ignore, k.Reverse, k.Aliases = r.Intn(2) == 0, r.Intn(2) == 0, r.Intn(2) == 0, r.Intn(2) == 0
 	if r.Intn(3) > 0 {
 		k.PageSize = 1 + r.Intn(7)
@@ -1172,7 +1193,7 @@ func runC13(c *hc.Ctx) error {
 	c.CorrInit("Texel.Corr.C13", "theories/Corr/C13.v", 12)
 	c.Sum.Rule = "random source GeoPackages (1-3 tables: polygon / multipolygon / point / linestring, 0-4 attribute columns, geometry column anywhere, 0-22 features; " +
 		"polygons: blobs of a few pixels of a requested level, sub-pixel (collapse), dumbbells whose corridor is below a coarse pixel (split), with holes, (partly) outside the grid) " +
-		"x {NetherlandsRDNewQuad, WebMercatorQuad} x 1-3 distinct ids x page size {default, 1..7} x keep/ignore-outside/reverse flags (long names or aliases) x 12 target path shapes " +
+		"x {NetherlandsRDNewQuad, WebMercatorQuad} x 1-3 distinct ids x page size {default, 1..7} x keep/ignore-outside/reverse flags (long names or aliases) x target paths (12 fixed shapes + random stems over [abgkp.-_09GP] with extensions {.gpkg,'',.pkg,.g,.GPKG,'.',.sqlite}) " +
 		"(relative, ./, nested, dots in directories, several dots, no extension, hidden file, unclean a//b and a/../b, absolute) x " +
 		"{no pre-existing files, overwrite on/off | pre-existing files with other content + overwrite | pre-existing + no overwrite (fails) | invalid tile matrix set or ids | missing source}; " +
 		"a hazard class (4 ids, page size 1, 3 attribute values, 150+ polygons, -race build); PathCases: random strings over [a-zA-Z0-9_.-/] incl. '.', '..', '//'. " +
